@@ -80,7 +80,13 @@ func c15Session(srv *p2p.VerifC06Server, btcnet wire.BitcoinNet, id int, seq uin
 		}
 	}()
 	srv.Accept(svcSide)
-	v := wire.NewMsgVersion(wire.NewNetAddress(nodeAddr, wire.SFNodeNetwork), wire.NewNetAddress(me, 0), 0xc15000000000+seq, 5)
+	// every third session is a node BEHIND the service's tip: when the sync manager looks for a sync peer it strikes
+	// such a node off its candidates (a write to the peer's shared sync state) while GET /network/peer iterates
+	lastBlock := int32(1000)
+	if seq%3 == 1 {
+		lastBlock = 0
+	}
+	v := wire.NewMsgVersion(wire.NewNetAddress(nodeAddr, wire.SFNodeNetwork), wire.NewNetAddress(me, 0), 0xc15000000000+seq, lastBlock)
 	v.Services = wire.SFNodeNetwork
 	v.ProtocolVersion = int32(pver)
 	_ = v.AddUserAgent(ua, "1.0")
